@@ -110,6 +110,42 @@ for xs in INPUTS:
             check('raised object', e, E1)
     check(f'parmap {xs}', list(Stream(Src(xs)).parmap(lambda x: [x], executor='thread', concurrency=3)), [[x] for x in xs])
 
+# a user function that fails on element k: the pipeline yields the first k outputs and then FAILS -- it never ends quietly with a truncated
+# result, whatever the exception class (StopIteration included: inside a generator it becomes RuntimeError, PEP 479)
+def failing_at(k, exc):
+    def f(x, *a):
+        if x == k:
+            raise exc
+        return x
+    return f
+
+
+for exc in (ValueError('boom'), KeyError('k'), StopIteration()):
+    want_cls = RuntimeError if isinstance(exc, StopIteration) else type(exc)
+    for name, mk in (('map', lambda f: Stream(Src(range(6))).map(f)), ('filter', lambda f: Stream(Src(range(1, 7))).filter(f)),
+                     ('map.batch', lambda f: Stream(Src(range(6))).map(f).batch(2)), ('accumulate', lambda f: Stream(Src(range(6))).accumulate(lambda a, b: f(b))),
+                     ('map.buffer', lambda f: Stream(Src(range(6))).map(f).buffer(3)), ('peek', lambda f: Stream(Src(range(6))).map(f).peek(print_func=lambda m: None))):
+        got = []
+        try:
+            for y in mk(failing_at(3, exc)):
+                got.append(y)
+            fails.append(f'{name}: user function raised {type(exc).__name__} on element 3 but the stream ended normally with {got!r} (silently truncated)')
+        except BaseException as e:      # noqa: BLE001
+            if not isinstance(e, want_cls):
+                fails.append(f'{name}: user function raised {type(exc).__name__}, stream raised {type(e).__name__}')
+
+# incremental consumption of parmap: taking k outputs pulls at most k + look-ahead (capacity + a few) source elements, for every concurrency
+for conc in (1, 2, 4):
+    src = Src(range(2000))
+    it = iter(Stream(src).parmap(lambda x: x, executor='thread', concurrency=conc))
+    first = [next(it) for _ in range(3)]
+    time_to_settle = 0.3
+    import time as _t
+    _t.sleep(time_to_settle)
+    if first != [0, 1, 2] or src.pulled > 3 + 2 * conc + 4:
+        fails.append(f'parmap(concurrency={conc}): 3 outputs pulled {src.pulled} source elements (look-ahead bound is 2 x concurrency + a few)')
+    it.close() if hasattr(it, 'close') else None
+
 # slow source in front of buffer: nothing may be lost when the source stalls
 import time
 
